@@ -22,6 +22,7 @@ fn shape_with(
         coords: coords.to_vec(),
         gsub: true,
         gpos: true,
+        alternate_index: 0,
     };
     let r = font.shape(&req, &c.gids(input));
     assert!(r.problems.is_empty(), "problems: {:?}", r.problems);
